@@ -6,7 +6,7 @@ unset AWS_CA_BUNDLE
 REPO=${4:-/repo}
 D=$(mktemp -d /tmp/inpkg.XXXXXX)
 printf '{"Replace":{"%s/%s/zz_verif_inpkg_test.go":"%s"}}\n' "$REPO" "$1" "$2" > $D/ov.json
-cd $REPO && go test -overlay $D/ov.json -vet=off -count=1 -timeout 120s -run "$3" ./$1/
+cd $REPO && go test -overlay $D/ov.json -vet=off -count=1 -timeout 900s -run "$3" ./$1/
 rc=$?
 rm -rf $D
 exit $rc
